@@ -306,3 +306,81 @@ func sortedKeys[M ~map[string]V, V any](m M) []string {
 	sort.Strings(ks)
 	return ks
 }
+
+// roleParams: the parameters that stand for the same thing as one of the seed parameters, found by use and not by name:
+// a parameter of an in-module function belongs to the role when it is handed on unchanged, as the argument at the position
+// of a parameter that already belongs to it (greatest depth 6). Renaming a parameter does not change the result.
+func (p *Prog) roleParams(seeds ...*ssa.Parameter) map[*ssa.Parameter]bool {
+	role := map[*ssa.Parameter]bool{}
+	for _, s := range seeds {
+		if s != nil {
+			role[s] = true
+		}
+	}
+	for round := 0; round < 6; round++ {
+		changed := false
+		for _, fn := range p.Funcs {
+			eachInstr(fn, func(_ *ssa.BasicBlock, _ int, in ssa.Instruction) {
+				call, ok := in.(ssa.CallInstruction)
+				if !ok {
+					return
+				}
+				g := staticCallee(call.Common())
+				if g == nil || !inModule(g) {
+					return
+				}
+				for i, a := range call.Common().Args {
+					if i >= len(g.Params) || !role[g.Params[i]] {
+						continue
+					}
+					if ap, ok := a.(*ssa.Parameter); ok && !role[ap] {
+						role[ap] = true
+						changed = true
+					}
+				}
+			})
+		}
+		if !changed {
+			break
+		}
+	}
+	return role
+}
+
+// paramIndexIn: the positions of fn's parameters that belong to the role.
+func paramIndexIn(fn *ssa.Function, role map[*ssa.Parameter]bool) []int {
+	var out []int
+	for i, q := range fn.Params {
+		if role[q] {
+			out = append(out, i)
+		}
+	}
+	return out
+}
+
+// withHelpers: fn and the in-module functions it calls statically, transitively up to the given depth. Rules that ask "does
+// this function test / call / store X" look at this set, so that moving a few statements into a helper does not hide X.
+func (p *Prog) withHelpers(fn *ssa.Function, depth int) []*ssa.Function {
+	seen := map[*ssa.Function]bool{}
+	var out []*ssa.Function
+	var walk func(f *ssa.Function, d int)
+	walk = func(f *ssa.Function, d int) {
+		if f == nil || seen[f] || f.Blocks == nil {
+			return
+		}
+		seen[f] = true
+		out = append(out, f)
+		if d >= depth {
+			return
+		}
+		eachInstr(f, func(_ *ssa.BasicBlock, _ int, in ssa.Instruction) {
+			if call, ok := in.(ssa.CallInstruction); ok {
+				if g := staticCallee(call.Common()); g != nil && inModule(g) {
+					walk(g, d+1)
+				}
+			}
+		})
+	}
+	walk(fn, 0)
+	return out
+}
